@@ -292,10 +292,11 @@ def bool_value_paths(fn: ast.FunctionDef, result: str, max_iter: int):
 
     start = 0
     for i, st in enumerate(fn.body):
-        if isinstance(st, ast.Assign) and any(isinstance(t, ast.Name) and t.id == result for t in st.targets):
+        if any(isinstance(a, ast.Assign) and any(isinstance(t, ast.Name) and t.id == result for t in a.targets) for a in ast.walk(st)):
             start = i
             break
-    # keep `vis = self.visibility` etc. out: enumerate from the first assignment of the result variable
+    # keep `vis = self.visibility` etc. out: enumerate from the first statement that assigns the result variable (directly, or
+    # inside a guard clause such as `if self.choice: ...; return val`)
     return Enumerator(on_stmt, max_iter=max_iter).run(fn.body[start:], Path())
 
 
@@ -480,8 +481,11 @@ def r01_4(ctx):
     rec = []
     for st_ in starts:
         cur_ = st_.targets[0].id
+        # the cursor itself or a plain alias of it (`cur = cursor` as the loop variable of an inlined generator)
+        curs = {cur_} | {a.targets[0].id for a in ast.walk(fin.node) if isinstance(a, ast.Assign) and len(a.targets) == 1 and isinstance(a.targets[0], ast.Name)
+                         and isinstance(a.value, ast.Name) and a.value.id == cur_}
         rec += [(st_, n) for n in ast.walk(fin.node) if isinstance(n, ast.Call) and ast.unparse(n.func) == "self._finalize_node"
-                and n.args and ast.unparse(n.args[0]) == cur_ and n.lineno > st_.lineno]
+                and n.args and ast.unparse(n.args[0]) in curs and n.lineno > st_.lineno]
     marks = {id(repo.enclosing_stmt(c)) for c in calls}
     flp = Flow(fin.node, events=lambda st__: ["propagated"] if id(st__) in marks else [], track_guards=False).run()
     ok = bool(calls) and bool(rec) and all("propagated" in (flp.events_at(st_) or set()) for st_, _ in rec) and ast.unparse(calls[0].args[1]) == "visible_if"
@@ -811,8 +815,12 @@ def r01_12(ctx):
     Symbol.bool_value, Symbol._str_default and Choice._selection_from_defaults the arm taken for an active entry always leaves
     the loop - a `break` that depends on the entry's value (`if val: break`) lets a later default overrule the first active one."""
     from .common import first_match_loops
-    n = first_match_loops(ctx, [f"{CORE}:Symbol.str_value", f"{CORE}:Symbol.bool_value", f"{CORE}:Symbol._str_default", f"{CORE}:Choice._selection_from_defaults"],
+    n = first_match_loops(ctx, [f"{CORE}:Symbol.str_value", f"{CORE}:Symbol.bool_value", f"{CORE}:Symbol._str_default"],
                           "a later entry decides although an earlier one is active")
+    # a choice looks for the first default that is active *and* names a visible member of itself: those two tests on the entry
+    # are part of the search, whether written in one condition or as guard clauses
+    n += first_match_loops(ctx, [f"{CORE}:Choice._selection_from_defaults"], "a later entry decides although an earlier one is active",
+                           entry_filters=("{v}.visibility", "{v}.choice is self"))
     if n < 8:
         raise AnalysisError(f"only {n} first-match loops found in the evaluators")
 
